@@ -28,6 +28,10 @@ def addr(rng, n):
     else: a = ""
     if rng.below(5) == 0:
         a += rng.choice(["+", "-", "+1", "-1", "+2", "-2", "++"])
+    # numbers beyond int: they must be out of range, not wrap around to a small line number
+    if rng.below(40) == 0:
+        big = rng.choice(["2147483647", "2147483648", "4294967296", "4294967297", "4294967298", "99999999999", "18446744073709551617"])
+        a = rng.choice([big, a + "+" + big, a + "-" + big, a + "+" + big + "-" + big, "1+" + big + "+" + big + "+" + big + "+" + big])
     return a
 
 def region(rng, n):
@@ -94,7 +98,7 @@ def file_cmd(rng, names):
     if r < 27: return ["e! " + f]
     if r < 28: return ["e!"]
     if r < 29: return ["e #"]
-    if r < 31: return ["b " + rng.choice(["1", "2", "3", "+", "-", "#", "%", "^", "9"])]
+    if r < 31: return ["b " + rng.choice(["1", "2", "3", "+", "-", "#", "%", "^", "9", "4294967297", "4294967298", "99999999999"])]
     if r < 32: return ["b"]
     if r < 33: return ["b " + rng.choice(["1", "2", "#"])]
     if r < 34: return ["q"]
